@@ -14,7 +14,7 @@ impl Payload {
 }
 
 fn base(cap: usize, ops: Vec<Op>, class: String) -> StreamCase {
-    StreamCase { cap, gz_level: 6, method: "GET".into(), accept_encoding: None, use_parts: false, ops, class }
+    StreamCase { cap, gz_level: 6, pre_calls: vec![], method: "GET".into(), accept_encoding: None, use_parts: false, ops, class }
 }
 
 fn write_sizes(cap: u64) -> Vec<u64> {
@@ -273,6 +273,29 @@ pub fn gen_c17(rng: &mut Rng, thorough: bool, emit: &mut dyn FnMut(StreamCase)) 
                         let mut c = base(cap, ops, format!("G:c17 ae={:?} level={} cap={} {} parts={}", ae, level, cap, method, parts));
                         c.accept_encoding = ae.map(|s| s.as_bytes().to_vec());
                         c.gz_level = level;
+                        c.method = method.into();
+                        c.use_parts = parts;
+                        emit(c);
+                    }
+                }
+            }
+        }
+    }
+    // builder call sequences: an option set more than once (layered configuration), in either order;
+    // the calls made last decide
+    let pres: Vec<Vec<(u64, u64)>> = vec![
+        vec![(1, 0)], vec![(1, 9)], vec![(1, 0), (1, 5)], vec![(0, 1)], vec![(0, 65536), (1, 0)], vec![(1, 0), (0, 3)], vec![(1, 3), (1, 0), (0, 9)],
+    ];
+    for ae in [None, Some("gzip"), Some("identity"), Some("gzip;q=0.5, identity;q=0.5"), Some("*;q=0")] {
+        for pre in &pres {
+            for level in [0u32, 1, 6] {
+                for method in ["GET", "HEAD"] {
+                    for parts in [false, true] {
+                        let ops = vec![Op::WriteAll(payload.clone()), Op::Flush, Op::Drain(1), Op::DropWriter, Op::Drain(1), Op::Poll(1)];
+                        let mut c = base(7, ops, format!("G:c17-calls ae={:?} pre={:?} level={} {} parts={}", ae, pre, level, method, parts));
+                        c.accept_encoding = ae.map(|s| s.as_bytes().to_vec());
+                        c.gz_level = level;
+                        c.pre_calls = pre.clone();
                         c.method = method.into();
                         c.use_parts = parts;
                         emit(c);
